@@ -24,7 +24,7 @@ Lemma wake_all_loop : forall (l : list tid) (s : qrw) (t : tid),
     (forall x, ~ In x l -> x <> t -> qthr s' x = qthr s x).
 Proof.
   induction l as [|h r IH]; intros s t Hq Hpc Hnt Hnd.
-  - exists 2%nat. eexists. simpl. unfold qth_step at 1. rewrite Hpc, Hq. simpl.
+  - exists 2%nat. eexists. cbn [q_run_thread]. unfold qth_step at 1. rewrite Hpc, Hq. cbn [qgoto qset_thr qset_pc qp qthr].
     unfold qth_step. qthr_simp. rewrite upd_same. simpl. split; [reflexivity|].
     qthr_simp. rewrite Hq. repeat split; auto; try tauto.
     + rewrite upd_same. reflexivity.
@@ -37,7 +37,7 @@ Proof.
     + intros Hin. apply Hnt. right. exact Hin.
     + inversion Hnd; assumption.
     + exists (S n), s'. split.
-      { simpl. unfold qth_step at 1. rewrite Hpc, Hq. fold s1. exact Hrun. }
+      { cbn [q_run_thread]. unfold qth_step at 1. rewrite Hpc, Hq. fold s1. exact Hrun. }
       split; [exact Hqs|]. split; [rewrite Hqu; reflexivity|]. split; [rewrite Hls; reflexivity|].
       split; [exact Hsp|]. split; [exact Hp|]. split.
       * intros x [<-|Hx]; [|apply Hw; exact Hx].
@@ -66,13 +66,13 @@ Proof.
     + exact Hns.
     + exact Hnd.
     + exists (S n), s'. split.
-      { simpl. unfold qth_step at 1. rewrite Hpc, Hq. fold s1. exact Hrun. }
+      { cbn [q_run_thread]. unfold qth_step at 1. rewrite Hpc, Hq. fold s1. exact Hrun. }
       split; [exact Hls|]. split; [exact Hsp|]. split; [exact Hp|].
       split; [rewrite Hqu; unfold s1; qthr_simp; exact Hq|]. split; [exact Hqs|]. split; [exact Hw|].
       intros x Hx Hxt. rewrite Hoth by assumption. unfold s1. qthr_simp. rewrite upd_other by exact Hxt. reflexivity.
   - assert (h <> t) as Hht by (intros ->; apply Hnu; left; reflexivity).
     exists 2%nat. eexists. split.
-    { simpl. unfold qth_step at 1. rewrite Hpc, Hq. unfold qth_step, q_notify. qthr_simp.
+    { cbn [q_run_thread]. unfold qth_step at 1. rewrite Hpc, Hq. unfold qth_step, q_notify. qthr_simp.
       rewrite upd_same. simpl. reflexivity. }
     qthr_simp. repeat split; auto.
     + rewrite upd_same. reflexivity.
